@@ -2719,6 +2719,16 @@ func (p *Posix) PutObject(ctx context.Context, po s3response.PutObjectInput) (s3
 			return s3response.PutObjectOutput{}, s3err.GetAPIError(s3err.ErrDirectoryObjectContainsData)
 		}
 
+		// a directory object has no data, but the body reader still has to be
+		// read to its end: the deferred request signature (and any checksum)
+		// is verified there and reported as a read error
+		if po.Body != nil {
+			_, err = io.Copy(io.Discard, po.Body)
+			if err != nil {
+				return s3response.PutObjectOutput{}, err
+			}
+		}
+
 		err = backend.MkdirAll(name, uid, gid, doChown, p.newDirPerm)
 		if err != nil {
 			if errors.Is(err, syscall.EDQUOT) {
